@@ -380,6 +380,12 @@ impl<'a, 'b> Sentence<'a, 'b> {
                 "must not end with a whitespace",
             ));
         }
+        if text.is_empty() {
+            return Err(VaporettoError::invalid_argument(
+                "tokenized_text",
+                "must contain at least one character",
+            ));
+        }
         str_to_char_pos.resize(pos + 1, 0);
         for (i, &pos) in char_to_str_pos.iter().enumerate() {
             str_to_char_pos[pos] = i;
